@@ -37,6 +37,8 @@ import (
 	"io"
 	"os"
 	"path/filepath"
+	"reflect"
+	"sort"
 	"strconv"
 	"strings"
 	"sync"
@@ -367,7 +369,7 @@ func (c *ipClient) Read(ctx context.Context, op func(context.Context, db.ReadOnl
 		return err
 	}
 	return c.c.Read(ctx, func(ctx context.Context, rd db.ReadOnly) error {
-		return op(ctx, &ipRO{ip: c.ip, rd: rd})
+		return op(ctx, &ipRO{ReadOnly: rd, ip: c.ip})
 	})
 }
 
@@ -376,7 +378,7 @@ func (c *ipClient) Write(ctx context.Context, op func(context.Context, db.Transa
 		return err
 	}
 	return c.c.Write(ctx, func(ctx context.Context, tx db.Transaction) error {
-		if err := op(ctx, &ipTx{ip: c.ip, tx: tx}); err != nil {
+		if err := op(ctx, &ipTx{Transaction: tx, ip: c.ip}); err != nil {
 			c.ip.note("tx.rollback")
 			return err
 		}
@@ -411,36 +413,68 @@ func (w *ipTx) CreateMessages(ctx context.Context, reqs ...*db.CreateMessageReq)
 	if err := w.ip.step("tx.CreateMessages:" + w.ids(ids)); err != nil {
 		return err
 	}
-	return w.tx.CreateMessages(ctx, reqs...)
+	return w.Transaction.CreateMessages(ctx, reqs...)
 }
 
 func (w *ipTx) CreateMessageAndAddToMailbox(ctx context.Context, mbox imap.InternalMailboxID, req *db.CreateMessageReq) (imap.UID, imap.FlagSet, error) {
 	if err := w.ip.step("tx.CreateMessageAndAddToMailbox:" + w.ids([]imap.InternalMessageID{req.InternalID})); err != nil {
 		return 0, imap.FlagSet{}, err
 	}
-	return w.tx.CreateMessageAndAddToMailbox(ctx, mbox, req)
+	return w.Transaction.CreateMessageAndAddToMailbox(ctx, mbox, req)
 }
 
 func (w *ipTx) DeleteMessages(ctx context.Context, ids []imap.InternalMessageID) error {
 	if err := w.ip.step("tx.DeleteMessages:" + w.ids(ids)); err != nil {
 		return err
 	}
-	return w.tx.DeleteMessages(ctx, ids)
+	return w.Transaction.DeleteMessages(ctx, ids)
 }
 
 func (w *ipTx) MarkMessageAsDeleted(ctx context.Context, id imap.InternalMessageID) error {
 	if err := w.ip.step("tx.MarkMessageAsDeleted:" + w.ids([]imap.InternalMessageID{id})); err != nil {
 		return err
 	}
-	return w.tx.MarkMessageAsDeleted(ctx, id)
+	return w.Transaction.MarkMessageAsDeleted(ctx, id)
 }
 
 func (w *ipTx) MarkMessageAsDeletedAndAssignRandomRemoteID(ctx context.Context, id imap.InternalMessageID) error {
 	if err := w.ip.step("tx.MarkMessageAsDeletedAndAssignRandomRemoteID:" + w.ids([]imap.InternalMessageID{id})); err != nil {
 		return err
 	}
-	return w.tx.MarkMessageAsDeletedAndAssignRandomRemoteID(ctx, id)
+	return w.Transaction.MarkMessageAsDeletedAndAssignRandomRemoteID(ctx, id)
 }
 
 var _ db.Transaction = (*ipTx)(nil)
 var _ db.ReadOnly = (*ipRO)(nil)
+
+// c07CheckInterfaces: the generated wrappers (interpose_gen.go) must cover exactly the methods gluon's
+// db.ReadOnly / db.Transaction have now; otherwise calls of a new method would go unrecorded.
+func c07CheckInterfaces() error {
+	diff := func(t reflect.Type, have map[string]bool) []string {
+		var out []string
+		seen := map[string]bool{}
+		for i := 0; i < t.NumMethod(); i++ {
+			n := t.Method(i).Name
+			seen[n] = true
+			if !have[n] {
+				out = append(out, "+"+n)
+			}
+		}
+		for n := range have {
+			if !seen[n] {
+				out = append(out, "-"+n)
+			}
+		}
+		sort.Strings(out)
+		return out
+	}
+	txHave := map[string]bool{}
+	for _, n := range ipTxMethodNames {
+		txHave[n] = true
+	}
+	d := append(diff(reflect.TypeOf((*db.Transaction)(nil)).Elem(), txHave), diff(reflect.TypeOf((*db.ReadOnly)(nil)).Elem(), ipROMethodNames)...)
+	if len(d) > 0 {
+		return fmt.Errorf("db interface changed (%s): run tools/c07gen (cd /verif/tools/c07gen && go run . /repo > ../../harness/interpose_gen.go)", strings.Join(d, " "))
+	}
+	return nil
+}
